@@ -235,6 +235,12 @@ func ParseContracts(file, text, pkg string, out *ContractSet) error {
 		}
 		if strings.HasPrefix(s, "at ") {
 			rest := strings.TrimSpace(s[3:])
+			// at <callee> ghost <directive>: ghost step taken just before the call
+			if gi := strings.Index(rest, " ghost "); gi >= 0 && !strings.Contains(rest[:gi], " requires") && !strings.Contains(rest[:gi], " ensures") && !strings.Contains(rest[:gi], " assume") {
+				cur.At = append(cur.At, &AtClause{Callee: strings.TrimSpace(rest[:gi]), Kind: "ghost", Clause: &Clause{Text: strings.TrimSpace(rest[gi+7:]), Where: where}})
+				lastClause = nil
+				continue
+			}
 			// callee name ends before " requires" / " ensures"
 			idx := strings.Index(rest, " requires")
 			kind := "requires"
@@ -247,6 +253,14 @@ func ParseContracts(file, text, pkg string, out *ContractSet) error {
 				kind = "assume"
 				if idx >= 0 {
 					rest = rest[:idx] + " ensures" + rest[idx+len(" assume"):]
+				}
+			}
+			if idx < 0 {
+				// presume: an explicit assumption made just before the call (listed in the evidence)
+				idx = strings.Index(rest, " presume")
+				kind = "presume"
+				if idx >= 0 {
+					rest = rest[:idx] + " ensures" + rest[idx+len(" presume"):]
 				}
 			}
 			if idx < 0 {
